@@ -130,12 +130,13 @@ pub struct Lexer<'lexer> {
   /// Token `not` is a keyword at the very beginning of the unary tests rule,
   /// in all other contexts it is just a name.
   unary_tests: bool,
-  /// Flag indicating if the `between` keyword was encountered.
-  /// When this flag is set, the next `and` token is returned as `band` keyword,
-  /// otherwise it is returned as `and`. This allows to disambiguate the `and`
-  /// operator used in between clause from conjunction.
-  /// After consuming first `and` as `band` this flag is cleared by the lexer.
-  between: bool,
+  /// Stack of `between` keywords encountered and not yet matched with their `and`,
+  /// each with the number of parentheses, brackets and braces opened since then.
+  /// When the innermost `between` has no open parentheses, brackets or braces,
+  /// the next `and` token is returned as `band` keyword and this `between` is removed
+  /// from the stack, otherwise `and` is returned as `and`. This allows to disambiguate the `and`
+  /// operator used in between clause from conjunction, also in parenthesized bounds.
+  between: Vec<usize>,
   /// ???
   type_name: bool,
   /// ???
@@ -152,7 +153,7 @@ impl<'lexer> Lexer<'lexer> {
       input: input.chars().collect(),
       position: 0,
       unary_tests: false,
-      between: false,
+      between: vec![],
       type_name: false,
       till_in: false,
     }
@@ -163,7 +164,20 @@ impl<'lexer> Lexer<'lexer> {
   }
 
   pub fn set_between(&mut self) {
-    self.between = true;
+    self.between.push(0);
+  }
+
+  /// Returns `true` when the next `and` token closes the innermost `between` clause.
+  fn is_between_and(&self) -> bool {
+    matches!(self.between.last(), Some(0))
+  }
+
+  /// Counts parentheses, brackets and braces opened (`true`) or closed (`false`)
+  /// inside the innermost unfinished `between` clause.
+  fn nest_between(&mut self, opened: bool) {
+    if let Some(depth) = self.between.last_mut() {
+      *depth = if opened { *depth + 1 } else { depth.saturating_sub(1) };
+    }
   }
 
   pub fn set_type_name(&mut self) {
@@ -273,12 +287,12 @@ impl<'lexer> Lexer<'lexer> {
         self.position += 4;
         Ok((TokenType::Boolean, TokenValue::Boolean(true)))
       }
-      ['a', 'n', 'd', WS, _, _, _, _, _, _, _, _] if !self.between => {
+      ['a', 'n', 'd', WS, _, _, _, _, _, _, _, _] if !self.is_between_and() => {
         self.position += 3;
         Ok((TokenType::And, TokenValue::And))
       }
-      ['a', 'n', 'd', WS, _, _, _, _, _, _, _, _] if self.between => {
-        self.between = false;
+      ['a', 'n', 'd', WS, _, _, _, _, _, _, _, _] if self.is_between_and() => {
+        self.between.pop();
         self.position += 3;
         Ok((TokenType::BetweenAnd, TokenValue::BetweenAnd))
       }
@@ -377,26 +391,32 @@ impl<'lexer> Lexer<'lexer> {
       }
       ['(', _, _, _, _, _, _, _, _, _, _, _] => {
         self.position += 1;
+        self.nest_between(true);
         Ok((TokenType::LeftParen, TokenValue::LeftParen))
       }
       [')', _, _, _, _, _, _, _, _, _, _, _] => {
         self.position += 1;
+        self.nest_between(false);
         Ok((TokenType::RightParen, TokenValue::RightParen))
       }
       ['[', _, _, _, _, _, _, _, _, _, _, _] => {
         self.position += 1;
+        self.nest_between(true);
         Ok((TokenType::LeftBracket, TokenValue::LeftBracket))
       }
       [']', _, _, _, _, _, _, _, _, _, _, _] => {
         self.position += 1;
+        self.nest_between(false);
         Ok((TokenType::RightBracket, TokenValue::RightBracket))
       }
       ['{', _, _, _, _, _, _, _, _, _, _, _] => {
         self.position += 1;
+        self.nest_between(true);
         Ok((TokenType::LeftBrace, TokenValue::LeftBrace))
       }
       ['}', _, _, _, _, _, _, _, _, _, _, _] => {
         self.position += 1;
+        self.nest_between(false);
         Ok((TokenType::RightBrace, TokenValue::RightBrace))
       }
       ['@', _, _, _, _, _, _, _, _, _, _, _] => {
